@@ -253,7 +253,7 @@ theorem readLine_delim (delim : UInt8) (pre post rest : Bytes) (hpre : ∀ b ∈
     | cons c t ih =>
       intro racc h
       have hc : c ≠ delim := h c (by simp)
-      simp only [List.cons_append, readDelimLoop, Bool.false_or, beq_iff_eq, hc, if_false]
+      simp only [List.cons_append, readDelimLoop, beq_iff_eq, hc, if_false]
       rw [ih (c :: racc) (fun b hb => h b (by simp [hb]))]
       simp
   have gen2 : ∀ (rest racc : Bytes), (∀ b ∈ rest, b ≠ delim) →
@@ -264,10 +264,35 @@ theorem readLine_delim (delim : UInt8) (pre post rest : Bytes) (hpre : ∀ b ∈
     | cons c t ih =>
       intro racc h
       have hc : c ≠ delim := h c (by simp)
-      simp only [readDelimLoop, Bool.false_or, beq_iff_eq, hc, if_false]
+      simp only [readDelimLoop, beq_iff_eq, hc, if_false]
       rw [ih (c :: racc) (fun b hb => h b (by simp [hb]))]
       simp
   exact ⟨by simpa [readLineDelim] using gen1 pre [] hpre, by simpa [readLineDelim] using gen2 rest [] hrest⟩
+
+/-- **readLine_delim_total**: `readLine(char)` through an object whose stream cannot be read (opened for writing) comes
+    back at once with the empty string and leaves the object alone (repair 95952ce: it used to loop forever);
+    on a readable stream it consumes at most what is there (the model function is structurally recursive on the
+    unread bytes, so it always returns) -/
+theorem readLine_delim_total (h : Handle) (delim : UInt8) :
+    (h.sm.canRead = false → hreadLineDelim h delim = ([], h)) ∧
+    (h.sm.canRead = true → (hreadLineDelim h delim).1.length ≤ h.rs.rest.length) := by
+  constructor
+  · intro hc; simp [hreadLineDelim, hc]
+  · intro hc
+    have gen : ∀ (rest racc : Bytes) (e : Bool), (readDelimLoop delim rest e racc).1.length ≤ racc.length + rest.length := by
+      intro rest
+      induction rest with
+      | nil => intro racc e; simp [readDelimLoop]
+      | cons c t ih =>
+        intro racc e
+        simp only [readDelimLoop]
+        split
+        · simp
+        · have := ih (c :: racc) e
+          simp only [List.length_cons] at this ⊢
+          omega
+    have := gen h.rs.rest [] h.rs.eof
+    simpa [hreadLineDelim, hc, readLineDelim] using this
 
 -- hypotheses are satisfiable / the statements are not vacuous: a 3-byte chunk on "ab\r\ncd"
 example : readLine 3 ⟨[97, 98, 13, 10, 99, 100], false⟩ = (([97, 98], true), ⟨[99, 100], false⟩) := by
